@@ -25,8 +25,11 @@ def run(ctx, facts):
     ctx.not_decided[:] = ["uniformity over the m! orders", "that the drawn index lies in [lastidx, m) at the top of the unit interval (floating point)"]
     methods = C13.methods_of(facts, FY)
     n = 0
+    from .. import inline
     for name, fn in methods.items():
         fid = FY + name
+        if inline.absorbed(facts, fid):
+            continue     # a new private helper whose every call was inlined: its writes are judged in its callers
         for (w, f, idx) in writes_to_self(fn, "v"):
             n += 1
             if name == "reset":
@@ -53,7 +56,12 @@ def run(ctx, facts):
     nx = facts.fn(FY + "next")
     t = tree_of(nx)
     incs = [(w, f) for (w, f, i) in writes_to_self(nx, "lastidx")]
-    plus = [w for (w, f) in incs if w["k"] == "AssignOp" and w["op"] == "+=" and nf.nf(w["r"]) == "1"]
+    from ..rulelib import resolver_of
+    R = resolver_of(nx)
+    # `lastidx += 1`, or `lastidx = lastidx + 1` where the right-hand side may go through an immutable local that still
+    # equals lastidx at that point (the resolver is position aware)
+    plus = [w for (w, f) in incs if (w["k"] == "AssignOp" and w["op"] == "+=" and nf.nf(w["r"]) == "1")
+            or (w["k"] == "Assign" and nf.nf(w["r"], True, res=R).replace(" ", "") in ("(self.lastidx+1)", "(1+self.lastidx)"))]
     zero = [w for (w, f) in incs if w["k"] == "Assign" and nf.nf(w["r"]) == "0"]
     other = [w for (w, f) in incs if w not in plus and w not in zero]
     body = nx["hir"]
@@ -102,10 +110,12 @@ def run(ctx, facts):
     good = False
     msg = ""
     if len(swaps) == 1 and "expr" in body:
-        ret = nf.nf(body["expr"], True, res=R)
+        tail = nf.strip(body["expr"])
+        # what the returned local WAS computed from (its initialiser, read at the position of its `let`)
+        d_ = R.defs.get(tail["res"]["local"]) if tail["k"] == "Path" and "local" in tail["res"] else None
+        ret = nf.nf(d_ if d_ is not None else body["expr"], True, res=R)
         args = {nf.nf(a, True, res=R) for a in swaps[0]["args"]}
         other = [a for a in args if a != "self.lastidx"]
-        tail = nf.strip(body["expr"])
         # the returned value must have been read before the swap: it is a local whose let precedes the swap
         read_before = False
         if tail["k"] == "Path" and "local" in tail["res"]:
